@@ -9,6 +9,7 @@ import (
 	"os"
 	"path/filepath"
 	"sort"
+	"strings"
 	"time"
 
 	"github.com/FollowTheProcess/msg"
@@ -393,6 +394,15 @@ func (a *App) clean(spokfile *file.SpokFile) error {
 		return nil
 	}
 
+	// An output that resolves to the spokfile, the directory it lives in, or anything above
+	// that (e.g. "", "." or "..") would take the whole project with it, so check everything
+	// before removing anything
+	for _, file := range toRemove {
+		if containsPath(file, spokfile.Path) {
+			return fmt.Errorf("Refusing to remove %s: it contains the spokfile at %s", file, spokfile.Path)
+		}
+	}
+
 	for _, file := range toRemove {
 		err := os.RemoveAll(file)
 		if err != nil {
@@ -402,6 +412,16 @@ func (a *App) clean(spokfile *file.SpokFile) error {
 	}
 	msg.Fsuccess(a.stream.Stdout, "Done")
 	return nil
+}
+
+// containsPath reports whether target is at or below dir, i.e. whether
+// removing dir would also remove target.
+func containsPath(dir, target string) bool {
+	rel, err := filepath.Rel(dir, target)
+	if err != nil {
+		return false
+	}
+	return rel != ".." && !strings.HasPrefix(rel, ".."+string(filepath.Separator))
 }
 
 // setStream reassigns all the app's IO streams to match the one passed in.
